@@ -279,6 +279,12 @@ def sortQuad (qs : QuadT) : QuadT :=
 def negLin (ts : LinT) : LinT := ts.map fun t => (-t.1, t.2)
 def negQuad (qs : QuadT) : QuadT := qs.map fun t => (-t.1, t.2)
 
+/-- what the C++ constructors do to the data handed to them: `QuadAndLinTerms(lt, qt)` calls `sort_terms()` -/
+def Con.construct : Con → Con
+  | .quad c0 ts qs => .quad c0 (sortLin ts) (sortQuad qs)
+  | .cquad k rhs ts qs => .cquad k rhs (sortLin ts) (sortQuad qs)
+  | c => c
+
 /-! ## constr_prepro.h — the pure parts (bounds / type / decisions) -/
 
 /-- what `PreprocessConstraint` decided for one constraint -/
@@ -502,7 +508,7 @@ structure State where
   /-- init expression of each variable (`none`: original or plain fixed variable) -/
   defs : Array (Option Con) := #[]
   /-- `map_fixed_vars_` -/
-  fixed : List (Rat × Nat) := []
+  fixed : List (ER × Nat) := []
   deriving Repr, Inhabited
 
 def State.env (s : State) : Env := fun i => s.vars.getD i { lb := nan, ub := nan, int := false }
@@ -510,18 +516,13 @@ def State.env (s : State) : Env := fun i => s.vars.getD i { lb := nan, ub := nan
 def State.addVarRaw (s : State) (b : VarB) (d : Option Con) : State × Nat :=
   ({ s with vars := s.vars.push b, defs := s.defs.push d }, s.vars.size)
 
-/-- `MakeFixedVar` (finite values) -/
+/-- `MakeFixedVar`: `std::unordered_map<double,int>` lookup uses `==` (a NaN key is never found) -/
 def State.makeFixedVar (s : State) (c : ER) : State × Nat :=
-  match c with
-  | fin q =>
-    match s.fixed.find? (fun kv => kv.1 = q) with
-    | some kv => (s, kv.2)
-    | none =>
-      let (s', v) := s.addVarRaw { lb := c, ub := c, int := false } none
-      ({ s' with fixed := (q, v) :: s'.fixed }, v)
-  | _ =>
-    -- ±∞ keys: not tracked by the model's map (never reused in generated cases)
-    s.addVarRaw { lb := c, ub := c, int := false } none
+  match s.fixed.find? (fun kv => eq kv.1 c) with
+  | some kv => (s, kv.2)
+  | none =>
+    let (s', v) := s.addVarRaw { lb := c, ub := c, int := false } none
+    ({ s' with fixed := (c, v) :: s'.fixed }, v)
 
 /-- `AddVar(lb, ub, type)` -/
 def State.addVar (s : State) (p : Pre) : State × Nat :=
